@@ -6,6 +6,7 @@ import (
 	"go/constant"
 	"go/token"
 	"go/types"
+	"strconv"
 	"sort"
 	"strings"
 
@@ -407,29 +408,26 @@ func runRegistrationSwitch(c *Ctx, r *Result, rule string) int {
 		if b, ok := si.TagType.Underlying().(*types.Basic); !ok || b.Info()&types.IsString == 0 {
 			continue
 		}
-		switch si.Fn {
-		case "parseBoolean":
+		if si.Fn == "parseBoolean" {
 			pbCases = si.CaseVals
 			pbPos = si.Stmt.Pos()
-		case "lookupKeyword":
-			kwBool = map[string]bool{}
-			for _, st := range si.Stmt.Body.List {
-				cc := st.(*ast.CaseClause)
-				ret := false
-				for _, s := range cc.Body {
-					if rs, ok := s.(*ast.ReturnStmt); ok && len(rs.Results) == 1 {
-						if id, ok := rs.Results[0].(*ast.Ident); ok && id.Name == "typeBoolean" {
-							ret = true
-						}
-					}
-				}
-				if ret {
-					for _, e := range cc.List {
-						if tv := pkg.TypesInfo.Types[e]; tv.Value != nil {
-							kwBool[tv.Value.ExactString()] = true
-						}
-					}
-				}
+		}
+	}
+	if pbCases == nil {
+		// parseBoolean written as an if chain
+		if tab := stringCaseTable(c.W.Fn("jparse.parseBoolean")); tab != nil {
+			pbCases = map[string]bool{}
+			for w := range tab {
+				pbCases[strconv.Quote(w)] = true
+			}
+		}
+	}
+	if tab := stringCaseTable(c.W.Fn("jparse.lookupKeyword")); tab != nil {
+		kwBool = map[string]bool{}
+		tb := pkgConstExact(pkg, "typeBoolean")
+		for w, v := range tab {
+			if tb != "" && v == tb {
+				kwBool[strconv.Quote(w)] = true
 			}
 		}
 	}
@@ -734,26 +732,16 @@ func runJSONLiterals(c *Ctx, r *Result, rule string) {
 	// keyword table: true/false -> typeBoolean with the right values, null -> typeNull
 	kw := map[string]string{}
 	var kwPos token.Pos
-	for _, si := range collectSwitches(pkg) {
-		if si.Fn != "lookupKeyword" {
-			continue
+	if kf := c.W.Fn("jparse.lookupKeyword"); kf != nil {
+		kwPos = kf.Pos()
+		names := map[string]string{}
+		for _, n := range []string{"typeBoolean", "typeNull"} {
+			if v := pkgConstExact(pkg, n); v != "" {
+				names[v] = n
+			}
 		}
-		kwPos = si.Stmt.Pos()
-		for _, st := range si.Stmt.Body.List {
-			cc := st.(*ast.CaseClause)
-			ret := ""
-			for _, s := range cc.Body {
-				if rs, ok := s.(*ast.ReturnStmt); ok && len(rs.Results) == 1 {
-					if id, ok := rs.Results[0].(*ast.Ident); ok {
-						ret = id.Name
-					}
-				}
-			}
-			for _, e := range cc.List {
-				if tv := pkg.TypesInfo.Types[e]; tv.Value != nil && tv.Value.Kind() == constant.String {
-					kw[constant.StringVal(tv.Value)] = ret
-				}
-			}
+		for w, v := range stringCaseTable(kf) {
+			kw[w] = names[v]
 		}
 	}
 	for word, want := range map[string]string{"true": "typeBoolean", "false": "typeBoolean", "null": "typeNull"} {
@@ -901,4 +889,73 @@ func sameNodeValue(a, b ssa.Value) bool {
 		}
 	}
 	return strip(a) == strip(b)
+}
+
+// stringCaseTable reads, from the resolved program, which constant a function returns for which
+// string: every `x == "lit"` (switch case or if chain alike) whose true edge leads, through
+// empty blocks, to a return of a constant. The result maps the literal to the constant's exact
+// string; nil when the function has no such comparison.
+func stringCaseTable(f *ssa.Function) map[string]string {
+	if f == nil {
+		return nil
+	}
+	var out map[string]string
+	for _, b := range f.Blocks {
+		iff, ok := b.Instrs[len(b.Instrs)-1].(*ssa.If)
+		if !ok {
+			continue
+		}
+		bo, ok := iff.Cond.(*ssa.BinOp)
+		if !ok || (bo.Op != token.EQL && bo.Op != token.NEQ) {
+			continue
+		}
+		var lit *ssa.Const
+		if k, isK := bo.Y.(*ssa.Const); isK && k.Value != nil && k.Value.Kind() == constant.String {
+			lit = k
+		} else if k, isK := bo.X.(*ssa.Const); isK && k.Value != nil && k.Value.Kind() == constant.String {
+			lit = k
+		}
+		if lit == nil {
+			continue
+		}
+		tgt, from := b.Succs[0], b
+		if bo.Op == token.NEQ {
+			tgt = b.Succs[1]
+		}
+		for hops := 0; hops < 4 && len(tgt.Instrs) == 1; hops++ {
+			if _, isJump := tgt.Instrs[0].(*ssa.Jump); !isJump {
+				break
+			}
+			tgt, from = tgt.Succs[0], tgt
+		}
+		ret, ok := tgt.Instrs[len(tgt.Instrs)-1].(*ssa.Return)
+		if !ok || len(ret.Results) == 0 {
+			continue
+		}
+		v := ret.Results[0]
+		if phi, isPhi := v.(*ssa.Phi); isPhi && phi.Block() == tgt {
+			for i, pr := range tgt.Preds {
+				if pr == from {
+					v = phi.Edges[i]
+				}
+			}
+		}
+		k, isK := v.(*ssa.Const)
+		if !isK || k.Value == nil {
+			continue
+		}
+		if out == nil {
+			out = map[string]string{}
+		}
+		out[constant.StringVal(lit.Value)] = k.Value.ExactString()
+	}
+	return out
+}
+
+// pkgConstExact: the exact string of the package-level constant name, "" when there is none.
+func pkgConstExact(pkg *packages.Package, name string) string {
+	if k, ok := pkg.Types.Scope().Lookup(name).(*types.Const); ok {
+		return k.Val().ExactString()
+	}
+	return ""
 }
